@@ -102,7 +102,7 @@ func (r *replayer) build(pkgDir string) (string, error) {
 	bin := filepath.Join(r.scratch, pkgDir+".test")
 	cmd := exec.Command("go", "test", "-c", "-vet=off", "-overlay", ovPath, "-o", bin, ip)
 	cmd.Dir = r.eng.repo
-	cmd.Env = append(os.Environ(), "GOFLAGS=-mod=mod", "GOPROXY=off", "GOSUMDB=off", "GOTOOLCHAIN=local")
+	cmd.Env = append(os.Environ(), "GOFLAGS=-mod=readonly", "GOPROXY=off", "GOSUMDB=off", "GOTOOLCHAIN=local")
 	out, err := cmd.CombinedOutput()
 	if err != nil {
 		r.bins[pkgDir] = ""
